@@ -344,6 +344,49 @@ theorem hmmer_refilter_matches_fresh_partial (x y : HmmerRes) (maxE minS : Dec)
   obtain ⟨_, _, h3, _⟩ := HmmerRes.refilter_inv h
   rw [h3, hmmerReference_eq_fresh x.hits maxE minS hb]
 
+/-- the general case, no hypothesis: what `refilter` keeps is the fresh-run hit list plus, possibly,
+    hits lying exactly on a current threshold — every fresh hit is kept, in order (the fresh list is
+    the kept list filtered by the strict comparison), and every kept hit that a fresh run would not
+    report is a boundary hit.  So the known-finding class is *exactly* where the two can differ. -/
+theorem hmmer_refilter_vs_fresh (x y : HmmerRes) (maxE minS : Dec) (h : x.refilter maxE minS = .reuse y) :
+    hmmerFresh x.hits maxE minS = y.hits.filter (fun h => Dec.lt minS h.score && Dec.lt h.evalue maxE)
+    ∧ (∀ h ∈ hmmerFresh x.hits maxE minS, h ∈ y.hits)
+    ∧ (∀ h ∈ y.hits, h ∉ hmmerFresh x.hits maxE minS → hmmerOnBoundary [h] maxE minS = true) := by
+  obtain ⟨_, _, h3, _⟩ := HmmerRes.refilter_inv h
+  have himp : ∀ k : HmmerHit, (Dec.lt minS k.score && Dec.lt k.evalue maxE) = true →
+      (Dec.le minS k.score && Dec.le k.evalue maxE) = true := by
+    intro k hk
+    simp only [Bool.and_eq_true] at hk ⊢
+    exact ⟨Dec.le_of_lt hk.1, Dec.le_of_lt hk.2⟩
+  refine ⟨?_, ?_, ?_⟩
+  · rw [h3]
+    simp only [hmmerFresh, hmmerReference, List.filter_filter]
+    apply filter_congr'
+    intro k _
+    cases hk : (Dec.lt minS k.score && Dec.lt k.evalue maxE)
+    · simp
+    · simp [himp k hk]
+  · intro k hk
+    rw [h3]
+    simp only [hmmerFresh, hmmerReference, List.mem_filter] at hk ⊢
+    exact ⟨hk.1, himp k hk.2⟩
+  · intro k hk hn
+    rw [h3] at hk
+    simp only [hmmerReference, hmmerFresh, List.mem_filter, not_and, Bool.not_eq_true] at hk hn
+    have hnot := hn hk.1
+    have hle := hk.2
+    simp only [Bool.and_eq_true] at hle
+    simp only [hmmerOnBoundary, List.any_cons, List.any_nil, Bool.or_false, Bool.or_eq_true, Bool.and_eq_true]
+    -- one of the two strict comparisons fails although the inclusive one holds: equality on that threshold
+    cases h1 : Dec.lt minS k.score
+    · left
+      refine ⟨?_, hle.1⟩
+      rw [Dec.le_eq_not_lt, h1]; rfl
+    · right
+      have h2 : Dec.lt k.evalue maxE = false := by simpa [h1] using hnot
+      refine ⟨hle.2, ?_⟩
+      rw [Dec.le_eq_not_lt, h2]; rfl
+
 /-- negation witness: a hit scoring exactly the new minimum (50.0; stored under 25.0) survives
     `refilter` (inclusive) although `build_hits` (exclusive) would not report it -/
 def exBoundary : HmmerRes := ⟨"rec1", ⟨1, -2⟩, ⟨25, 0⟩, "/db/pfam/35.0/Pfam-A.hmm", "fullhmmer",
@@ -645,6 +688,28 @@ theorem sideload_reused_iff_same_request (r : RecInfo) (o : SideOpts) (x y : Sid
     simp only [sideloadOptsMayReuse, he]
     by_cases h1 : y.subregions = x.subregions <;> by_cases h2 : y.protoclusters = x.protoclusters <;> simp [h1, h2]
 
+/-- an annotation-file entry `{"start", "end", "label"}` becomes exactly the sub-region the constructor
+    builds from these values with the file's tool (no details) … -/
+theorem subregion_from_schema_entry (tool : Tool) (hn : Tool.nameOk tool.name = true) (origin : Option Int)
+    (s e : Int) (label : String) :
+    SideOpts.subFromSchema tool origin (.obj [("start", .int s), ("end", .int e), ("label", .str label)])
+      = SubAnn.make s e label tool [] origin := by
+  simp [SideOpts.subFromSchema, SubAnn.fromJson, lookup, reqInt, reqStr, reqTool, optQMap, Tool.fromJson_toJson tool hn]
+
+/-- … and a protocluster entry without neighbourhoods gets the neighbourhoods 0 / 0 -/
+theorem protocluster_from_schema_entry (tool : Tool) (hn : Tool.nameOk tool.name = true) (origin : Option Int)
+    (cs ce : Int) (product : String) :
+    SideOpts.protoFromSchema tool origin (.obj [("core_start", .int cs), ("core_end", .int ce), ("product", .str product)])
+      = ProtoAnn.make cs ce product tool [] 0 0 origin := by
+  simp [SideOpts.protoFromSchema, ProtoAnn.fromJson, lookup, reqInt, reqStr, reqTool, optQMap, optInt, Tool.fromJson_toJson tool hn]
+
+/-- record entries for other records contribute nothing -/
+theorem loadFile_skips_other_records (r : RecInfo) (tool : Tool) (hn : Tool.nameOk tool.name = true)
+    (other : String) (ho : r.hasName other = false) (areas : List (String × J)) :
+    SideOpts.loadFile r (.obj [("tool", tool.toJson), ("records", .arr [.obj (("name", .str other) :: areas)])])
+      = .reuse ([], []) := by
+  simp [SideOpts.loadFile, SideOpts.areasOfEntry, reqTool, reqArr, lookup, mapO, Tool.fromJson_toJson tool hn, ho]
+
 /-- PFAM results are kept iff they were computed with the version this module's own option asks for;
     otherwise the module searches again in that version -/
 theorem pfam_results_kept_iff_own_version (m : HmmerModule) (o : PfamOpts) (res : HmmerRes) (v : String)
@@ -652,6 +717,31 @@ theorem pfam_results_kept_iff_own_version (m : HmmerModule) (o : PfamOpts) (res 
     hmmerRunOnRecord m o (some res) =
       (if pfamKeepAllowed m o v then .reuse (.keep res) else .reuse (.rerun (o.wanted m))) :=
   hmmerRun_keep_iff m o res v hv
+
+/-- "latest" resolves to one of the installed versions (numeric comparison of the components:
+    10.0 is newer than 9.0) -/
+theorem latestVersion_installed (installed : List String) (v : String) (h : latestVersion installed = .reuse v) :
+    v ∈ installed := by
+  unfold latestVersion at h
+  split at h
+  · simp at h
+  · simp at h
+  · rename_i k ks hm
+    simp at h; subst h
+    -- every (key, name) pair carries a name of the list
+    have hall : ∀ p ∈ k :: ks, p.2 ∈ installed := versionKeys_mem installed _ hm
+    have hfold : ∀ (l : List (List Nat × String)) (b : List Nat × String), (∀ p ∈ b :: l, p.2 ∈ installed) →
+        (l.foldl (fun best c => if versionLt best c then c else best) b).2 ∈ installed := by
+      intro l
+      induction l with
+      | nil => intro b hb; exact hb b (by simp)
+      | cons c cs ih =>
+        intro b hb
+        simp only [List.foldl_cons]
+        split
+        · exact ih c (fun p hp => hb p (by simp at hp ⊢; rcases hp with rfl | hp <;> simp_all))
+        · exact ih b (fun p hp => hb p (by simp at hp ⊢; rcases hp with rfl | hp <;> simp_all))
+    exact hfold ks k hall
 
 /-- the sibling module's option is never consulted -/
 theorem clusterhmmer_ignores_fullhmmer_option (o : PfamOpts) (other : String) (res : Option HmmerRes) :
@@ -899,7 +989,15 @@ example : ∃ x, exSideOpts.runOnRecord exRec none = .reuse x ∧ x.subregions.l
 example : ∃ x, exSideOpts.runOnRecord exRec none = .reuse x
     ∧ SideOpts.regenerate exRec { exSideOpts with padding := 20000 } x.toJson = .refuse .runtime := ⟨_, rfl, by decide +kernel⟩
 
+-- a small annotation file: one entry for this record (by its original id), one for another record
+example : SideOpts.loadFile { exRec with originalId := some "scaffold" }
+    (.obj [("tool", .obj [("name", .str "my tool"), ("version", .str "1.0")]),
+           ("records", .arr [.obj [("name", .str "scaffold"), ("subregions", .arr [.obj [("start", .int 100), ("end", .int 900), ("label", .str "lbl")]])],
+                             .obj [("name", .str "someone_else"), ("subregions", .arr [.obj [("start", .int 1), ("end", .int 9), ("label", .str "x")]])]])])
+    = .reuse ([⟨some 10000, 100, 900, "lbl", [], ⟨"my tool", "1.0", "", []⟩⟩], []) := by decide +kernel
 example : dbVersionOfPath "/data/antismash/pfam/35.0/Pfam-A.hmm" = .reuse "35.0" := by decide +kernel
+example : latestVersion ["9.0", "31.0", "10.0", "10.1"] = .reuse "31.0" ∧ latestVersion ["9.0", "10.0"] = .reuse "10.0"
+    ∧ latestVersion [] = .refuse .value ∧ latestVersion ["35.0", "old"] = .refuse .value := by decide +kernel
 -- cluster results of version 34.0, `--clusterhmmer-pfamdb-version 34.0 --fullhmmer-pfamdb-version 35.0`: kept
 example : hmmerRunOnRecord .cluster ⟨"35.0", "34.0", "35.0"⟩ (some { exHmmer with database := "/db/pfam/34.0/Pfam-A.hmm" })
     = .reuse (.keep { exHmmer with database := "/db/pfam/34.0/Pfam-A.hmm" }) := by decide +kernel
